@@ -55,6 +55,7 @@ from itertools import product
 from typing import Callable
 
 import numpy as np
+from scipy.constants import mu_0 as MU0
 from scipy.spatial.transform import Rotation as R
 
 from magpylib._src.exceptions import MagpylibBadUserInput
@@ -496,6 +497,22 @@ def getBH_dict_level2(
             f"Input parameter `sources` must be one of {list(source_classes)}"
             " when using the functional interface."
         ) from err
+
+    # magnetization may be given instead of polarization (J = mu0*M)
+    if "magnetization" in kwargs:
+        if "polarization" in kwargs:
+            raise MagpylibBadUserInput(
+                "The inputs magnetization and polarization are dependent. "
+                "Only one can be provided."
+            )
+        try:
+            kwargs["polarization"] = (
+                np.array(kwargs.pop("magnetization"), dtype=float) * MU0
+            )
+        except (TypeError, ValueError) as err:
+            raise MagpylibBadUserInput(
+                "magnetization input must be array-like."
+            ) from err
 
     kwargs["observers"] = observers
     kwargs["position"] = position
